@@ -158,7 +158,8 @@ func AcceptedLength(regexString string) (AcceptedLengths, error) {
 			case syntax.InstAlt, syntax.InstAltMatch:
 				for _, s := range seen {
 					if s == pos {
-						cache[entry] = AcceptedLengths{math.MaxUint64, math.MaxUint64}
+						// a way back into a loop that is being evaluated adds no finite length; this holds
+						// for the current path only, so it is not remembered for other ways to reach pos
 						return AcceptedLengths{math.MaxUint64, math.MaxUint64}, nil
 					}
 				}
